@@ -52,7 +52,7 @@ VONE = Val(ONE)
 
 
 class Enc:
-    def __init__(self, dag, subst=None, cuts=None, inv_vars=(), prefix=''):
+    def __init__(self, dag, subst=None, cuts=None, inv_vars=(), prefix='', sqrt_opaque=False):
         """subst: var name -> Fraction (T-grid); cuts: node id -> var name (replace node by a fresh variable);
         inv_vars: var names v encoded as 1/x_v (x_v fresh, positive) - the x = 1/h parametrisation."""
         self.dag = dag
@@ -69,6 +69,7 @@ class Enc:
         self.dmemo = {}
         self.dfac = {}
         self.sqrt_nodes = {}
+        self.sqrt_opaque = sqrt_opaque
 
     # ------------------------------------------------------------------ factors
     def var(self, name):
@@ -236,8 +237,9 @@ class Enc:
                 self.sqrt_nodes[j] = y
                 arg = memo[n[1]]
                 yk = next(iter(y.f))
-                self.assumptions.append(self.fac[yk] >= 0)
-                self.assumptions.append(self.eq_formula(self.mul(y, y), arg))
+                if not self.sqrt_opaque:
+                    self.assumptions.append(self.fac[yk] >= 0)
+                    self.assumptions.append(self.eq_formula(self.mul(y, y), arg))
                 memo[j] = y
             elif op == D.ABS:
                 a = memo[n[1]]
